@@ -12,6 +12,7 @@ R7 only arithmetic/decider nodes are ever merged
 from __future__ import annotations
 
 import ast
+import re
 
 from ..core import AnalysisError, Func, Repo, Report, call_name, calls_in, chain, kwarg, norm, walk_local
 from ..dataflow import DefUse
@@ -420,6 +421,26 @@ def run(repo: Repo, rep: Report, tier: str) -> None:
                       (f"folded value `{bt[:80]}`" + ("" if bt == OUT else ": a default replaces an output value that is not a constant, so `(2 > 1) : y` with a run-time y folds to that default")
                        + ("" if excluded else "; nothing skips the fold when the output value is not a constant")))
         rep.check(ok, "C10-R9", "a folded decider keeps `output_value if cmp else 0`", detail, cpo.loc(n))
+
+    # ---------------- R10/R11 ----------------------------------------------------------
+    rep.rule("C10-R11", "a node that replaces a folded node is always kept: the loop that appends replacement targets to the result has no condition beyond "
+             "`is a constant` / `not already there` (references to the folded node are re-pointed at it, so dropping it leaves an operand without a producer)")
+    from .util import cguards as _cg11
+    c11 = _canon9(cpo)
+    loops11 = [n for n in walk_local(cpo.node) if isinstance(n, ast.For) and c11.text(n.iter) == "self.replacements.items()"]
+    rep.floor("C10-R11", "loops over the replacement table in constant propagation", len(loops11), 1)
+    for lp11 in loops11:
+        T = "ELEM(self.replacements.items())[1]"
+        for k in calls_in(lp11, "append"):
+            gs11 = _cg11(cpo, k)
+            # the only admissible conditions: membership of the target in the constant table and absence from the result list so far
+            ok11 = all(pol and re.fullmatch(re.escape(T) + r" in (\S+) and \1\[" + re.escape(T) + r"\] not in (\S+)", g) is not None for g, pol in gs11) and len(gs11) == 1
+            rep.check(ok11, "C10-R11", "every replacement target is appended to the optimised program",
+                      "appended whenever it is a constant that is not there yet" if ok11 else
+                      f"kept only under {[('' if pol else 'not ') + g[:80] for g, pol in gs11]}: a folded intermediate that a surviving combinator still reads can be dropped", cpo.loc(k))
+    from .shared import borrow as _borrow10
+    _borrow10(repo, rep, "C04", "C04-R5", "C10-R10", "the optimised build lays the same logical wires as the plain one: spanning-tree routing never leaves out the direct wires of bidirectional (feedback) pairs",
+              select=lambda o: "bidirectional sinks are always routed directly" in o.construct)
 
     # ---------------- R7 ---------------------------------------------------------------
     rep.rule("C10-R7", "common-subexpression elimination merges only IRArith/IRDecider nodes and keeps the first occurrence")
